@@ -192,6 +192,53 @@ def errors_named(which: int, kind: int) -> bool:
     return len(errs) == 1 and errs[0].path == path and (kind == 4 or (errs[0].method or "").lower() == "get")
 
 
+
+# ---------------------------------------------------------------------------------------------------------------
+# YAML: mapping keys stay strings whatever scalar type they look like (numeric status codes, on/off, 1.0, null, dates)
+
+import yaml as _yaml
+
+from schemathesis.core import deserialization as _de
+
+_LOADER = _de.get_yaml_loader()
+YAML_TAGS = ["str", "int", "bool", "float", "null", "timestamp", "merge-like custom"]
+YAML_KEYS = ["200", "on", "1.0", "null", "2024-01-01", "~", "1e3", "name", ".5", "0x1F"]
+
+
+class _Constructor:
+    """The part of yaml.constructor.SafeConstructor that construct_mapping relies on (the YAML parser itself is C code)."""
+
+    def flatten_mapping(self, node):
+        return None
+
+    def construct_object(self, node, deep=False):
+        tag = node.tag.rsplit(":", 1)[-1]
+        if tag == "int":
+            return 200
+        if tag == "float":
+            return 1.5
+        if tag == "bool":
+            return True
+        if tag == "null":
+            return None
+        return node.value
+
+
+def yaml_keys(tag1: int, key1: int, tag2: int, key2: int) -> bool:
+    """
+    pre: tag1 == param(0) % len(YAML_TAGS) and 0 <= tag2 < len(YAML_TAGS) and 0 <= key1 < len(YAML_KEYS) and 0 <= key2 < len(YAML_KEYS) and key1 != key2
+    post: _
+    """
+    def scalar(tag, text):
+        return _yaml.ScalarNode("tag:yaml.org,2002:" + ("custom" if tag.startswith("merge") else tag), text)
+
+    k1, k2 = pick(YAML_KEYS, key1), pick(YAML_KEYS, key2)
+    node = _yaml.MappingNode("tag:yaml.org,2002:map", [(scalar(pick(YAML_TAGS, tag1), k1), scalar("str", "v1")), (scalar(pick(YAML_TAGS, tag2), k2), scalar("int", "7"))])
+    mapping = _LOADER.construct_mapping(_Constructor(), node)
+    # the same document written as JSON has string keys: whatever the YAML resolver made of the key scalar, the key is its text
+    return list(mapping) == [k1, k2] and all(type(k) is str for k in mapping) and mapping[k1] == "v1" and mapping[k2] == 200
+
+
 _F = ["schemathesis.specs.openapi.schemas.BaseOpenAPISchema.get_all_operations", "schemathesis.specs.openapi.schemas.BaseOpenAPISchema._collect_operation_parameters",
       "schemathesis.specs.openapi.schemas.OpenApi30.collect_parameters", "schemathesis.specs.openapi.schemas.BaseOpenAPISchema.make_operation",
       "schemathesis.specs.openapi.schemas.MethodMap._init_operation", "schemathesis.specs.openapi.schemas.BaseOpenAPISchema.get_operation_by_id",
@@ -199,6 +246,10 @@ _F = ["schemathesis.specs.openapi.schemas.BaseOpenAPISchema.get_all_operations",
       "schemathesis.specs.openapi.parameters.parameters_to_json_schema", "schemathesis.specs.openapi.references.InliningResolver"]
 _ST = ["the document is loaded inside the harness with schemathesis.openapi.from_dict (no file / network)"]
 OBLIGATIONS = [
+    Ob(fn="yaml_keys", clause="loading does not depend on the serialisation: YAML mapping keys stay strings whatever scalar type the resolver assigns them (integers, on/off booleans, floats such as 1.0 / 1e3 / .5, null / ~, date-like text)",
+       timeout=200, params=range(7), functions=["schemathesis.core.deserialization.get_yaml_loader (construct_mapping)"], symbolic="the resolved tag (7) and the text (10) of two keys of one mapping", bounds="2 keys x 7 tags x 10 texts",
+       stubs=["the scanner / parser / resolver of PyYAML (C code) is replaced by hand-built key nodes carrying an arbitrary tag", "construct_object of the enclosing constructor returns a value of the tag's type"],
+       outside=["which tag PyYAML's resolver assigns to which text (its implicit-resolver regexes)"]),
     Ob(fn="merged_parameters", clause="effective inputs = path-level parameters overridden by operation-level parameters of the same name and location, through iteration, path+method lookup and operationId lookup",
        timeout={"quick": 400, "thorough": 900}, params=range(3), functions=_F, symbolic="name and location (2) of two path-level and two operation-level parameters (colliding or not, incl. names differing only by case); access route enumerated",
        bounds="2 + 2 parameters over 2 (path level) / 3 (operation level) names x 2 locations", stubs=_ST, outside=["$ref'd parameters at depth, security parameters, request bodies"]),
